@@ -259,3 +259,53 @@ _base_scn_sa = scenarios
 
 def scenarios():
     return _base_scn_sa() + [alg_sign(c) for c in ('RSAPriv', 'DSAPriv', 'ECDSAPriv', 'EdDSAPriv')] + [sig_fields('RSA'), sig_fields('EdDSA')]
+
+
+def dsa_from_signer():
+    """DSASignature.from_signer: the signer hands out DER  SEQUENCE { INTEGER r, INTEGER s }  (X.690: 30 L 02 lr <r> 02 ls <s>, short or
+    long form of L); the fields get exactly r and s (big-endian contents, a leading zero octet of a DER integer changes nothing).
+    Proved for content lengths (lr, ls) in a list that covers 160-, 256- and 528-bit integers with and without the leading zero octet."""
+    label = 'C02/fields.DSASignature.from_signer'
+    cls = 'pgpy.packet.fields.DSASignature'
+
+    def gen(repo):
+        obls, funcs, paths = [], [], 0
+        for lr, ls in ((1, 1), (20, 21), (21, 20), (32, 33), (33, 32), (66, 66)):
+            r = scn.Run(repo, cls, 'from_signer', '%s[r on %d, s on %d octets]' % (label, lr, ls))
+            ex, st = r.ex, r.st
+            L = 4 + lr + ls
+            hdr = [0x30, L] if L < 128 else [0x30, 0x81, L]
+            n = len(hdr) + L
+            # the signer output, octet by octet: the framing octets are the DER ones, the contents are free octets
+            o_r = len(hdr)
+            o_s = o_r + 2 + lr
+            octs = [z3.Int('content_octet_%d' % i) for i in range(n)]
+            fixed = dict(enumerate(hdr))
+            fixed.update({o_r: 2, o_r + 1: lr, o_s: 2, o_s + 1: ls})
+            units = [z3.IntVal(fixed[i]) if i in fixed else octs[i] for i in range(n)]
+            st.pc += [z3.And(octs[i] >= 0, octs[i] < 256) for i in range(n) if i not in fixed]
+            OUT = z3.Concat(*[z3.Unit(u) for u in units])
+            r.hook('pgpy.packet.types.MPI', '__call__', lambda ex, st, c, a: [(st, E.VInt(ex.as_int(a[0]), enum='pgpy.packet.types.MPI'))])
+            val = lambda lo, k: sum([units[lo + j] * 256 ** (k - 1 - j) for j in range(k)], z3.IntVal(0))
+            for as_bytes in (True, False):
+                arg = E.VBytes(OUT) if as_bytes else ex.new_buf(st, OUT)
+                for pi, (s, v) in enumerate(r.call(E.VObj(cls, 'sig'), [arg])):
+                    paths += 1
+                    tag = '%s/p%d' % ('bytes' if as_bytes else 'bytearray', pi)
+                    if isinstance(v, E.Raise):
+                        r.oblige(s, 'safety(%s)/%s' % (v.exc.split(':')[0], tag), z3.BoolVal(False), v.where)
+                        continue
+                    r.oblige(s, 'r-and-s-are-the-two-DER-integers/%s' % tag,
+                             z3.And(ex.as_int(s.heap.get(('sig', 'r'))) == val(o_r + 2, lr), ex.as_int(s.heap.get(('sig', 's'))) == val(o_s + 2, ls)))
+            res = r.result()
+            obls += res['obligations']
+            funcs = res['funcs']
+        return {'obligations': obls, 'funcs': funcs, 'paths': paths}
+    return Scenario(label, cls + '.from_signer', gen, props=('C02', 'C01'))
+
+
+_base_scn_dsa = scenarios
+
+
+def scenarios():
+    return _base_scn_dsa() + [dsa_from_signer()]
